@@ -1,7 +1,8 @@
 (* Properties/C16.v — Reconciler retry pacing and WaitUntilReconciled contract.
    Only statements closed by `exact`, with their assumptions printed. *)
 From Coq Require Import List NArith Bool.
-From SV Require Import Reconciler.Retries Reconciler.Model Reconciler.RetriesProofs Reconciler.CommitProofs Reconciler.Refuted.
+From SV Require Import Reconciler.Retries Reconciler.Model Reconciler.RetriesProofs Reconciler.CommitProofs Reconciler.Refuted
+  Reconciler.RoundInv Reconciler.Runs Reconciler.TableWf.
 Import ListNotations.
 Open Scope N_scope.
 
@@ -101,9 +102,20 @@ Theorem C16_wait_until_reconciled : forall s req,
 Proof. exact wur_spec. Qed.
 Print Assumptions C16_wait_until_reconciled.
 
-(* Not proved here (see C14.v): "every change with revision <= k_prev was attempted" needs the round
-   invariant over the change stream (nothing_forgotten); it is checked on every correspondence run by
-   the independent oracle !BAD:C16:wur-ok-before-change-attempted. *)
+(* WaitUntilReconciled(req) returns nil only after every change <= req has been attempted: in every
+   reachable state of a single-mode reconciler (any history of writes, faults, timings) the reported
+   revision k_prev is at most the change cursor (the revision of the last change delivered in a completed
+   round), and every object with revision <= k_prev is no longer Pending/Refreshing (its status was written
+   by a status commit, i.e. after an Update of that version: C15_commit_effect) and every deletion with
+   revision <= k_prev has been handed to Delete/DeleteBatch at least once (Acall: a call in the log).
+   (Batch mode is not covered by the proof; the Go oracles wur-ok-before-change-attempted and
+   progress-revision-ahead-of-attempts check both modes on every run.) *)
+Theorem C16_wur_only_after_attempted : forall cf st, cf_batch cf = false -> reach cf st ->
+  k_prev (snd st) <= k_cursor (snd st) /\ attempted_upto (fst st) (snd st) /\
+  forall req, snd (wur (snd st) req) = true -> forall pk sl, slot_of (e_tab (fst st)) pk = Some sl -> slot_rev sl <= req ->
+    match sl with Live o _ => is_pending o = false | Dead _ r => Acall (fst st) pk r end.
+Proof. exact wur_only_after_attempted. Qed.
+Print Assumptions C16_wur_only_after_attempted.
 
 Example C16_nonvacuous :
   duration 10 80 1 = 20 /\ duration 10 80 5 = 80 /\
